@@ -1302,7 +1302,18 @@ class Substitution(Rule):
             # Substitution is able to clear all x in original integrand
             self.f = body_subst
         else:
-            # Substitution is unable to clear x, need to solve for x
+            # Substitution is unable to clear x, need to solve for x. This picks
+            # one branch of the inverse of var_subst, which is only justified if
+            # var_subst is monotonic on the interval of integration.
+            if e.is_integral():
+                lo, hi = e.lower, e.upper
+                if lo.is_evaluable() and hi.is_evaluable() and expr.eval_expr(lo) > expr.eval_expr(hi):
+                    lo, hi = hi, lo
+                conds2 = ctx.get_conds()
+                conds2.add_condition(expr.Op(">", Var(e.var), lo))
+                conds2.add_condition(expr.Op("<", Var(e.var), hi))
+                if not (conds2.is_not_negative(dfx) or conds2.is_not_positive(dfx)):
+                    raise AssertionError("Substitution: cannot show that %s is monotonic on the interval" % var_subst)
             gu = solve_equation(var_subst, var_name, e.var, ctx.get_conds())
             if gu is None:
                 print('Solve %s = %s for %s' % (var_subst, var_name, e.var))
